@@ -3,7 +3,7 @@
    returned value satisfies P. *)
 From ZV.Common Require Import Base.
 From ZV.C15 Require Import Model ProofsCore ProofsSeq ProofsLz ProofsPz ProofsHex ProofsIo ProofsAll.
-From ZV.C15 Require Import ModelBlob ModelCases ProofsBlob ModelIo2 ProofsIo2 ModelHuff ProofsHuff.
+From ZV.C15 Require Import ModelBlob ModelCases ProofsBlob ModelIo2 ProofsIo2 ModelHuff ProofsHuff ModelEntropy ProofsEntropy.
 Open Scope N_scope.
 
 (* every modelled parser (39 entry points), every argument, every byte string shorter than 2^60:
@@ -364,3 +364,50 @@ Check huffman_unfixed_refuted :
      exists tb, ht_deser false data = Ok (tb, 0) 0 /\
        forall bits, HC.dns true (H.mkHT (Some (H.Leaf 97)) tb) bits = Some (97, bits)).
 Print Assumptions huffman_unfixed_refuted.
+
+(* Rans64Decoder::decode (1, 2, 4 or 8 streams) with ANY table whose frequencies sum to at most 4096 (what
+   Rans64Encoder::new builds): no panic - the state update `freq * (x / 4096) + x % 4096 - start` neither
+   overflows nor underflows for any 64-bit state, the header slices are in range - and, whatever the
+   expected length says, at most 64 KiB per stream are reserved before the symbols exist; the final
+   buffer is bounded by the 100 MiB limit *)
+Theorem rans_decode_total :
+  forall n t bytes outlen, n <= 8 -> rans_table_ok t -> bytes_ok bytes ->
+    good (fun _ => True) (8 * (56 + MAX_PREALLOC) + N.min outlen MAX_DECOMPRESSED) (rans_decode n t bytes outlen).
+Proof. exact rans_decode_good. Qed.
+Check rans_decode_total :
+  forall n t bytes outlen, n <= 8 -> rans_table_ok t -> bytes_ok bytes ->
+    good (fun _ => True) (8 * (56 + MAX_PREALLOC) + N.min outlen MAX_DECOMPRESSED) (rans_decode n t bytes outlen).
+Print Assumptions rans_decode_total.
+Example rans_decode_nontrivial :
+  rans_table_ok (repeat 16 256) /\
+  rans_decode 1 (repeat 16 256) [7; 9; 0; 0; 2; 0; 0; 0; 0; 0] 3 = Ok [0; 0; 144] 3.
+Proof. split; vm_compute; [discriminate | reflexivity]. Qed.
+
+(* FseDecoder::decompress (single block and block container): for every input below 2^60 bytes the header
+   path - size limit, table log range, frequency table, FseTable::new's checked frequency sum,
+   FastDivision::new - never panics, and a single block reserves at most its own size, the table and
+   64 KiB before the decoding loop *)
+Theorem fse_decode_total :
+  (forall data, nlen data < 2 ^ 60 ->
+     fsev_no_panic (fse_single_v true data) /\
+     fsev_alloc (fse_single_v true data) <= nlen data + FSE_TABLE_BYTES + MAX_PREALLOC) /\
+  (forall data, nlen data < 2 ^ 60 -> fsev_no_panic (fse_decompress_v data)).
+Proof. split; [exact fse_single_ok | exact fse_decompress_no_panic]. Qed.
+Check fse_decode_total :
+  (forall data, nlen data < 2 ^ 60 ->
+     fsev_no_panic (fse_single_v true data) /\
+     fsev_alloc (fse_single_v true data) <= nlen data + FSE_TABLE_BYTES + MAX_PREALLOC) /\
+  (forall data, nlen data < 2 ^ 60 -> fsev_no_panic (fse_decompress_v data)).
+Print Assumptions fse_decode_total.
+Example fse_decode_nontrivial :
+  fse_decompress_v [2; 0; 0; 0; 7; 0; 0; 0; 7; 0; 0; 0; 2; 0; 0; 0; 255; 120; 121; 2; 0; 0; 0; 255; 120; 121]
+  = FVal (Ok [120; 121; 120; 121] 24).
+Proof. vm_compute. reflexivity. Qed.
+
+(* FastDivision::new before fix 7376e1a: a stored frequency sum of 2^31 shifts a u64 by 64 bits *)
+Theorem fse_fastdiv_unfixed_refuted :
+  fast_div_new false 2147483648 = Panic /\ fast_div_new true 2147483648 <> Panic.
+Proof. split; [exact fast_div_unfixed_panics | apply fast_div_fixed_no_panic]. Qed.
+Check fse_fastdiv_unfixed_refuted :
+  fast_div_new false 2147483648 = Panic /\ fast_div_new true 2147483648 <> Panic.
+Print Assumptions fse_fastdiv_unfixed_refuted.
